@@ -39,6 +39,14 @@ T = {
          'Differential twin runs original vs clone with identical continuations (incl. next_id and merge), plus an independence check: mutating one copy leaves the complete observation of the other unchanged and the other still drains exactly as the reference model says.',
          'trusted: the interpreter and, for the independence drain, the reference model',
          'differential twin stateful property testing (original vs clone), metamorphic independence check'),
+ 'C11': ('treegen', 'exploration',
+         'Generated pairs of trees built through the API; the result of merge() is explained path-wise as a graft by an independent walk, compared vertex by vertex with the reference model that performed the equivalent add/bind/put calls, and drained through the epilogue (data bytes, collections).',
+         'trusted: reference model and graft() in harness/src/interp.rs; trees <= 8 vertices, labels from a pool of 4; merges that would exceed a limit are skipped and counted',
+         'property-based testing over generated tree pairs; oracle = independent path-wise graft + reference model'),
+ 'C12': ('treegen', 'exploration',
+         'Generated right graphs = tree + unreachable extras (isolated, detached sub-trees, ancestors of `right`); Ok iff no extras, otherwise Err naming every unreachable present vertex.',
+         'trusted: the generator knows which right vertices are unreachable by construction',
+         'property-based testing over generated graph pairs; oracle = reachability by construction'),
  'C14': ('scriptgen', 'exploration',
          'Differential twin: deploy_to(text) vs the direct API calls for generated programs under generated legal formatting; single-fault corruptions are classified by an independent strict parser (well-formed / malformed at command k / unspecified) and judged accordingly (Err without panic, prefix applied).',
          'trusted: the strict parser of the documented grammar (harness/src/props/script.rs); unspecified syntax is skipped and counted',
@@ -84,7 +92,7 @@ na = [{'property_id': p['id'], 'reason': 'check under construction in this sessi
 engines = {}
 for i in claimed:
     engines.setdefault(T[i][0], []).append(i)
-paths = {'scriptgen': 'harness/src/props/script.rs', 'twin': 'harness/src/props/twin.rs', 'prefixes': 'harness/src/props/prefixes.rs', 'multi-config': 'harness/src/props/multi.rs', 'gcmodel': 'harness/src/engine.rs', 'hexenum': 'harness/src/props/hexlab.rs', 'concatenum': 'harness/src/props/hexlab.rs', 'labels': 'harness/src/props/hexlab.rs'}
+paths = {'treegen': 'harness/src/props/trees.rs', 'scriptgen': 'harness/src/props/script.rs', 'twin': 'harness/src/props/twin.rs', 'prefixes': 'harness/src/props/prefixes.rs', 'multi-config': 'harness/src/props/multi.rs', 'gcmodel': 'harness/src/engine.rs', 'hexenum': 'harness/src/props/hexlab.rs', 'concatenum': 'harness/src/props/hexlab.rs', 'labels': 'harness/src/props/hexlab.rs'}
 m = {
     'version': 1,
     'setup_cmd': './setup.sh',
